@@ -56,6 +56,10 @@ static size_t vf_strlen (const char *v)
 #ifndef SHAPE
 #define SHAPE 0
 #endif
+#ifndef KOOM
+#define KOOM 0      /* > 0: allocation number KOOM of the edit fails (C14) */
+#endif
+extern int vf_oom_at, vf_oom_hit, vf_alloc_calls;
 #define MAXV 12
 struct fld { unsigned char code; char type; int len; unsigned char val[MAXV]; };
 #define NF_MAX 7
@@ -70,7 +74,7 @@ static const struct { unsigned char code; char type; int len; } shapes[][NF_MAX]
   /* 5 */ { {3, 's', 1}, {10, 'o', 3}, {2, 's', 3}, {9, 'u', 4}, {1, 'o', 1}, {0} },
   /* 6 */ { {11, 's', 1}, {127, 'g', 2}, {128, 'y', 1}, {255, 'u', 4}, {0} },
 };
-static struct fld M[NF_MAX + 1]; static int nf;
+static struct fld M[NF_MAX + 1], M0[NF_MAX + 1]; static int nf;
 static int al (int p, int a) { return (p + a - 1) / a * a; }
 static void put32 (unsigned char *p, unsigned v) { int i; for (i = 0; i < 4; i++) p[i] = (unsigned char) (ORDER == 'l' ? v >> (8 * i) : v >> (8 * (3 - i))); }
 static unsigned get32 (const unsigned char *p) { unsigned v = 0; int i; for (i = 0; i < 4; i++) v |= (unsigned) p[i] << (ORDER == 'l' ? 8 * i : 8 * (3 - i)); return v; }
@@ -103,6 +107,7 @@ void harness (void)
   for (nf = 0; shapes[SHAPE][nf].code; nf++)
     { M[nf].code = shapes[SHAPE][nf].code; M[nf].type = shapes[SHAPE][nf].type; M[nf].len = shapes[SHAPE][nf].len;
       for (k = 0; k < M[nf].len; k++) { M[nf].val[k] = vf_u8 (); if (M[nf].type != 'y' && M[nf].type != 'u') VF_ASSUME (M[nf].val[k] != 0); } }
+  for (i = 0; i < nf; i++) M0[i] = M[i];
   VF_ASSUME (_dbus_string_init (&h.data)); r = (DBusRealString *) &h.data;
   r->str[0] = ORDER; r->str[1] = (unsigned char) vf_range (1, 4); r->str[2] = vf_u8 (); r->str[3] = 1;
   for (i = 4; i < 12; i++) r->str[i] = vf_u8 ();                       /* body length, serial */
@@ -110,6 +115,36 @@ void harness (void)
   end = ref_encode (r->str); len0 = al (end, 8); for (i = end; i < len0; i++) r->str[i] = 0; r->str[len0] = 0; r->len = len0;
   h.padding = (unsigned) (len0 - end); h.byte_order = ORDER;
   for (i = 0; i <= DBUS_HEADER_FIELD_LAST; i++) h.fields[i].value_pos = _DBUS_HEADER_FIELD_VALUE_UNKNOWN;
+  { static unsigned char pre[VF_STR_CAP]; int pre_len = len0, pre_pad = (int) h.padding;
+    for (i = 0; i < len0; i++) pre[i] = r->str[i];
+    vf_oom_at = KOOM ? vf_alloc_calls + KOOM : 0; vf_oom_hit = 0;
+#if KOOM
+#if OP == 0
+  /* strip removes unknown fields one at a time; when a later removal fails, the earlier ones stay removed.  The hard obligation is that the header is then the
+   * canonical encoding of the original list minus the first j unknown fields for some j (well-formed, every known field intact); that it is not j = 0
+   * ("exactly as it was") is known finding F16. */
+#define VF_OOM_CHECK() do { if (!ok) { int j_, hit_ = -1; \
+      VF_ASSERT (vf_oom_hit > 0, "an edit fails only when an allocation failed"); \
+      for (j_ = 0; j_ <= NF_MAX; j_++) { int u_ = 0, same_ = 1, e_; nf = 0; \
+          for (i = 0; shapes[SHAPE][i].code; i++) { int unk_ = shapes[SHAPE][i].code > DBUS_HEADER_FIELD_LAST; if (unk_ && u_ < j_) { u_++; continue; } M[nf] = M0[i]; nf++; } \
+          if (u_ < j_) break; \
+          e_ = ref_encode (exp); \
+          if (_dbus_string_get_length (&h.data) != al (e_, 8) || (int) h.padding != al (e_, 8) - e_) same_ = 0; \
+          for (i = 12; i < e_; i++) if (same_ && r->str[i] != exp[i]) same_ = 0; \
+          if (same_ && hit_ < 0) hit_ = j_; } \
+      VF_ASSERT (hit_ >= 0, "a strip that fails midway leaves a well-formed header: the original fields minus the first few unknown ones, known fields intact"); \
+      VF_FINDING (hit_ == 0, "F16-strip-unknown-not-atomic-under-oom"); \
+      VF_WITNESS_OPT ("edit failed for lack of memory"); goto vf_end; } } while (0)
+#else
+#define VF_OOM_CHECK() do { if (!ok) { \
+      VF_ASSERT (vf_oom_hit > 0, "an edit fails only when an allocation failed"); \
+      VF_ASSERT (_dbus_string_get_length (&h.data) == pre_len && (int) h.padding == pre_pad, "a failed edit leaves the header's length and padding as they were (the serialised message stays well-formed)"); \
+      for (i = 0; i < pre_len; i++) VF_ASSERT (r->str[i] == pre[i], "a failed edit leaves every header byte as it was"); \
+      VF_WITNESS_OPT ("edit failed for lack of memory"); goto vf_end; } } while (0)
+#endif
+#else
+#define VF_OOM_CHECK() do { } while (0)
+#endif
   /* ---- the edit, on the real code and on the model */
 #if OP == 0
   ok = _dbus_header_remove_unknown_fields (&h);
@@ -128,7 +163,9 @@ void harness (void)
   idx = find (FIELD); if (idx < 0) { idx = nf++; M[idx].code = FIELD; M[idx].type = 'u'; M[idx].len = 4; }
   { unsigned char t[4]; put32 (t, newu); for (k = 0; k < 4; k++) M[idx].val[k] = t[k]; }
 #endif
+  VF_OOM_CHECK ();
   VF_ASSERT (ok, "the edit succeeds when memory is available");
+  }
   /* ---- oracle */
   end = ref_encode (exp);
   VF_ASSERT (_dbus_string_get_length (&h.data) == al (end, 8), "header length = end of the field array rounded up to 8");
@@ -146,5 +183,7 @@ void harness (void)
         { const char *v = 0; int j; VF_ASSERT (_dbus_header_get_field_basic (&h, k, M[idx].type, &v) && v != 0, "string-like field present");
           for (j = 0; j < M[idx].len; j++) VF_ASSERT ((unsigned char) v[j] == M[idx].val[j], "string-like field reads back as set / as before"); VF_ASSERT (v[M[idx].len] == 0, "and is NUL terminated"); }
     }
+  VF_WITNESS_OPT ("edit completed");
+vf_end:
   VF_WITNESS ("end of harness reached");
 }
